@@ -50,7 +50,8 @@ func watchdog(seed uint64) *time.Timer {
 
 // spinning returns goroutine id -> function for goroutines of a dump that are running or runnable,
 // were started by the code under test (no harness frame anywhere on their stack) and have a frame
-// in the repository under test; the function is that of the innermost such frame.
+// in the repository under test; the function is that of the outermost such frame (a spinning loop
+// is caught in different callees from one dump to the next).
 func spinning(dump, repo string) map[string]string {
 	out := map[string]string{}
 	for _, blk := range strings.Split(dump, "\n\n") {
@@ -75,8 +76,7 @@ func spinning(dump, repo string) map[string]string {
 				if k := strings.LastIndex(fn, "("); k > 0 {
 					fn = fn[:k]
 				}
-				out[id] = fn
-				break
+				out[id] = fn // keep going: the outermost frame in the repository names the loop
 			}
 		}
 	}
